@@ -285,6 +285,7 @@ def run(repo: Repo, ctx) -> None:
     _r5(repo, ctx, m, sd, ri)
     _r6(repo, ctx)
     _r7(repo, ctx)
+    _r9(repo, ctx)
     # ---- R8 -------------------------------------------------------------------
     from . import c20
     c20.run(repo, _Sub(ctx, 'C11.R8'))
@@ -402,6 +403,102 @@ def _r5(repo, ctx, m, sd, ri):
     if not found:
         raise AnalysisError('C11.R5: overloaded-item loop of _register_item '
                             'not found')
+
+
+def _r9(repo, ctx):
+    """Bookkeeping of the SDL pipeline that is visible in shape:
+       (a) a qualified name built for an object takes module and name from
+           the same object;
+       (b) a forked tracer context carries every field over like-for-like;
+       (c) the per-module declaration lists are only ever extended."""
+    ctx.floor('C11.R9', 6)
+    # (a)
+    n_q = 0
+    for mn in (DECL, TRACER):
+        m = repo.module(mn)
+        for f in repo._funcs_of(m):
+            for c in ast.walk(f.node):
+                if not (isinstance(c, ast.Call) and (call_name(c) or ''
+                                                     ).endswith('QualName')):
+                    continue
+                mod = kwarg(c, 'module')
+                nam = kwarg(c, 'name')
+                if mod is None or nam is None:
+                    continue
+                if not (isinstance(mod, ast.Attribute) and mod.attr ==
+                        'module' and isinstance(mod.value, ast.Name)):
+                    continue
+                recv = {x.value.id for x in ast.walk(nam)
+                        if isinstance(x, ast.Attribute) and x.attr == 'name'
+                        and isinstance(x.value, ast.Name)}
+                if not recv or mod.value.id in ('ctx', 'self'):
+                    continue
+                n_q += 1
+                ok = mod.value.id in recv
+                ctx.ob('C11.R9', f'{f.name}:qualname@L'
+                       f'{c.lineno - f.node.lineno}', ok,
+                       f'{f.name} builds a qualified name with the module '
+                       f'of `{mod.value.id}` and the name of '
+                       f'{sorted(recv)}: for an object in another module '
+                       f'the name does not exist, so the dependency on it '
+                       f'is silently dropped and the order depends on the '
+                       f'order of the module blocks', f.loc,
+                       sample=norm(c)[:70])
+    if n_q < 1:
+        raise AnalysisError('C11.R9: no qualified-name construction with '
+                            'attribute sources found')
+    # (b)
+    fk = repo.func(f'{TRACER}._fork_context')
+    ctx.saw(fk)
+    src = fk.params()[0]
+    new = None
+    for a in ast.walk(fk.node):
+        if isinstance(a, ast.Assign) and isinstance(a.value, ast.Call) and \
+                call_name(a.value) == 'TracerContext':
+            new = norm(a.targets[0])
+            for k in a.value.keywords:
+                if k.arg is None:
+                    continue
+                used = {x.attr for x in ast.walk(k.value) if isinstance(
+                    x, ast.Attribute) and norm(x.value) == src}
+                ctx.ob('C11.R9', f'_fork_context:{k.arg}', used == {k.arg},
+                       f'the forked tracer context takes `{k.arg}` from '
+                       f'{sorted(used)} of the parent', fk.loc,
+                       sample=f'{k.arg}={norm(k.value)[:30]}')
+    if new is None:
+        raise AnalysisError('C11.R9: _fork_context construction not found')
+    for a in ast.walk(fk.node):
+        if isinstance(a, ast.Assign) and isinstance(
+                a.targets[0], ast.Attribute) and norm(
+                a.targets[0].value) == new:
+            fld = a.targets[0].attr
+            ok = norm(a.value) == f'{src}.{fld}'
+            ctx.ob('C11.R9', f'_fork_context:{fld}', ok,
+                   f'the forked context shares `{norm(a.value)}` as its '
+                   f'{fld}: weak references found in a sub-expression are '
+                   f'recorded as strong ones (or lost), so an acyclic '
+                   f'document is rejected as cyclic or ordered wrongly',
+                   fk.loc, sample=f'{new}.{fld} = {src}.{fld}')
+    # (c)
+    ap = repo.func('edb.schema.ddl.apply_sdl')
+    ctx.saw(ap)
+    over = []
+    for a in ast.walk(ap.node):
+        if isinstance(a, ast.Assign) and isinstance(
+                a.targets[0], ast.Subscript) and norm(
+                a.targets[0].value) == 'documents':
+            # the initial registration of the default module, before any
+            # declaration is collected, is the one allowed overwrite
+            if a in ap.node.body:
+                continue
+            over.append(norm(a))
+    ctx.ob('C11.R9', 'apply_sdl:documents-only-extended', not over,
+           f'apply_sdl rebinds a per-module declaration list while '
+           f'collecting ({over}): declarations already collected for that '
+           f'module (a fully-qualified top-level declaration, an earlier '
+           f'block of the same module) are dropped, depending on their '
+           f'order in the document', ap.loc,
+           sample='setdefault / append only')
 
 
 def _parent_stmt(root, node):
